@@ -36,6 +36,18 @@ CHECKS = {
         note="Validators are assumed pure (evaluated an extra time by walker and monitor).",
         design_ref="DESIGN.md §4 C11",
     ),
+    "C12": dict(
+        technique="explicit-state BFS over real node + peer networks for six node types x {0,1,2}^2 durations; lock-step reference power FSM; class-level frame monitors",
+        text="For computer, server, switch, router, firewall and wireless router, each with peers on real links, and every "
+             "(start_up, shut_down) duration pair in {0,1,2}^2 (first event of every history), BFS over shutdown/startup/reset requests, "
+             "ticks, pings to/from/through the node, a software request, interface toggle requests, ACL requests and hand-built frames "
+             "injected at the node's interface. A reference power state machine (timing convention of base_hardware.rst) is stepped in "
+             "lock-step; in every state: not ON => interfaces disabled, nothing emitted or processed (monitors on send_frame/receive_frame/"
+             "session manager), every request but start-up refused, pings fail; OFF => no software running; back ON => interfaces and "
+             "previously running software up. Thorough empties the frontier for every type (whole reachable space of the menu).",
+        note="Requests/ticks/frames only; direct Python-API calls of power_on/power_off/reset are outside the property's quantifier (optional VERIF_C12_API=1).",
+        design_ref="DESIGN.md §4 C12",
+    ),
     "C15": dict(
         technique="explicit-state BFS over real FileSystem objects (replay-from-history), invariants on every state",
         text="Every sequence of file-system requests / agent-action requests / API calls up to the stated depth over a "
